@@ -70,6 +70,7 @@ Theorem C28_client_hello_log_fields : forall h l,
   cl_ticket l = has_ext ext_ticket (h_exts h) /\
   cl_reneg l = has_ext ext_reneg (h_exts h) /\
   cl_scts l = has_ext ext_sct (h_exts h) /\
+  cl_ems l = has_ext ext_ems (h_exts h) /\
   (forall name, find_ext ext_sni (h_exts h) = Some (enc_sni name) -> cl_sni l = name) /\
   (forall cs, find_ext ext_curves (h_exts h) = Some (enc_u16_list16 cs) -> cl_curves l = cs) /\
   (forall vs, find_ext ext_versions (h_exts h) = Some (enc_u16_list8 vs) -> cl_versions l = vs) /\
